@@ -1,10 +1,26 @@
-(* Model of src/model/function_map.rs (text level). Executable definitions only.
-   key_match / key_get follow the code after the D1 repair (prefix test on
-   bytes instead of slicing key1 at an offset taken from key2). *)
+(* Model of src/model/function_map.rs. Executable definitions only.
+   Text level: key_match / key_get (after the D1 repair), the query cut of
+   key_match5, and the pattern REWRITING pipelines of key_match2..5 and
+   key_get2..3 (slash-star becomes slash-dot-star; the MAT_B / MAT_P / in-function
+   regexes turn named segments into a non-slash-plus class, with or without a
+   capture group). The rewritten text is then read as a regular expression of a
+   small class (literal bytes, non-slash-plus with or without capture group,
+   dot-star); anything else is None = outside the modelled grammar (never
+   compared, only run for totality). The regex crate is third-party: amatch
+   restates its semantics on that class (anchored match, leftmost-first
+   captures); its tie to the crate is the correspondence run. *)
 From CV Require Import Model.Base.
 
 Definition star : ascii := "*"%char.
+Definition slash : ascii := "/"%char.
+Definition colon : ascii := ":"%char.
+Definition lbrace : ascii := "{"%char.
+Definition rbrace : ascii := "}"%char.
+Definition qmark : ascii := "?"%char.
+Definition lf : ascii := ascii_of_nat 10.
 
+(* ------------------------------------------------------------------ *)
+(* key_match / key_get                                                  *)
 (* everything before the first '*', and whether there was one *)
 Fixpoint before_star (p : text) : text * bool :=
   match p with
@@ -41,3 +57,436 @@ Definition key_get (k1 k2 : text) : text :=
     | _ => []
     end
   else [].
+
+(* ------------------------------------------------------------------ *)
+(* the rewriting pipelines (text -> text)                               *)
+
+(* str::replace of slash-star by slash-dot-star *)
+Fixpoint slash_star (s : text) : text :=
+  match s with
+  | c :: ((d :: r) as s') =>
+    if Ascii.eqb c slash && Ascii.eqb d star
+    then slash :: "."%char :: star :: slash_star r
+    else c :: slash_star s'
+  | other => other
+  end.
+
+Definition ns_plus : text := T "[^/]+".
+Definition ns_plus_cap : text := T "([^/]+)".
+Definition ns_plus_cap_lazy : text := T "([^/]+?)".
+
+(* MAT_B = `:[^/]*` replaced by `[^/]+`  (key_match2): a colon swallows the
+   rest of its segment *)
+Fixpoint mat_b (skip : bool) (s : text) : text :=
+  match s with
+  | [] => []
+  | c :: r =>
+    if skip then (if Ascii.eqb c slash then c :: mat_b false r else mat_b true r)
+    else if Ascii.eqb c colon then ns_plus ++ mat_b true r
+    else c :: mat_b false r
+  end.
+
+(* key_get2's regex `:[^/]+` (at least one character after the colon),
+   replaced by `([^/]+)`; also returns the names (without the colon) *)
+Fixpoint take_nonslash (s : text) : text * text :=
+  match s with
+  | [] => ([], [])
+  | c :: r => if Ascii.eqb c slash then ([], s)
+              else let (a, b) := take_nonslash r in (c :: a, b)
+  end.
+Fixpoint colon_names (skip : bool) (s : text) : text * list text :=
+  match s with
+  | [] => ([], [])
+  | c :: r =>
+    if skip then
+      if Ascii.eqb c slash then let (t, ns) := colon_names false r in (c :: t, ns)
+      else colon_names true r
+    else if Ascii.eqb c colon then
+      match fst (take_nonslash r) with
+      | [] => let (t, ns) := colon_names false r in (c :: t, ns)   (* lone colon: no match *)
+      | name => let (t, ns) := colon_names true r in (ns_plus_cap ++ t, name :: ns)
+      end
+    else let (t, ns) := colon_names false r in (c :: t, ns)
+  end.
+
+(* offset of the LAST '}' before the next '/' (greedy `[^/]*\}`), counted from
+   the character after the '{'; None if there is none *)
+Fixpoint last_close (s : text) (i : nat) (best : option nat) : option nat :=
+  match s with
+  | [] => best
+  | c :: r => if Ascii.eqb c slash then best
+              else last_close r (S i) (if Ascii.eqb c rbrace then Some i else best)
+  end.
+(* offset of the FIRST '}' at offset >= 1 before the next '/' (lazy `[^/]+?\}`) *)
+Fixpoint first_close (s : text) (i : nat) : option nat :=
+  match s with
+  | [] => None
+  | c :: r => if Ascii.eqb c slash then None
+              else if Ascii.eqb c rbrace && Nat.leb 1 i then Some i
+              else first_close r (S i)
+  end.
+
+(* MAT_P = `\{[^/]*\}` replaced by `[^/]+` (key_match3) *)
+Fixpoint mat_p (skip : nat) (s : text) : text :=
+  match s with
+  | [] => []
+  | c :: r =>
+    match skip with
+    | S n => mat_p n r
+    | 0 =>
+      if Ascii.eqb c lbrace then
+        match last_close r 0 None with
+        | Some k => ns_plus ++ mat_p (S k) r
+        | None => c :: mat_p 0 r
+        end
+      else c :: mat_p 0 r
+    end
+  end.
+
+(* `\{[^/]+?\}` (lazy) replaced by `rep`; returns the names inside the braces
+   (key_get3, key_match4, key_match5) *)
+Fixpoint brace_lazy (rep : text) (skip : nat) (s : text) : text * list text :=
+  match s with
+  | [] => ([], [])
+  | c :: r =>
+    match skip with
+    | S n => brace_lazy rep n r
+    | 0 =>
+      if Ascii.eqb c lbrace then
+        match first_close r 0 with
+        | Some k => let (t, ns) := brace_lazy rep (S k) r in (rep ++ t, firstn k r :: ns)
+        | None => let (t, ns) := brace_lazy rep 0 r in (c :: t, ns)
+        end
+      else let (t, ns) := brace_lazy rep 0 r in (c :: t, ns)
+    end
+  end.
+
+(* Regex::new(r"\{").replace_all(.., "\\{")  (key_get3) *)
+Fixpoint escape_lbrace (s : text) : text :=
+  match s with
+  | [] => []
+  | c :: r => if Ascii.eqb c lbrace then "\"%char :: c :: escape_lbrace r else c :: escape_lbrace r
+  end.
+
+Definition anchor (s : text) : text := "^"%char :: s ++ ["$"%char].
+
+Definition rewrite_km2 (p : text) : text := anchor (mat_b false (slash_star p)).
+Definition rewrite_km3 (p : text) : text := anchor (mat_p 0 (slash_star p)).
+Definition rewrite_kg2 (p : text) : text * list text :=
+  let (t, ns) := colon_names false (slash_star p) in (anchor t, ns).
+Definition rewrite_kg3 (p : text) : text * list text :=
+  let (t, ns) := brace_lazy ns_plus_cap_lazy 0 (slash_star p) in (anchor (escape_lbrace t), ns).
+Definition rewrite_km4 (p : text) : text * list text :=
+  let (t, ns) := brace_lazy ns_plus_cap 0 (slash_star p) in (anchor t, ns).
+Definition rewrite_km5 (p : text) : text := anchor (fst (brace_lazy ns_plus 0 (slash_star p))).
+
+(* ------------------------------------------------------------------ *)
+(* the regular expressions those texts denote, for the supported class  *)
+Inductive atom :=
+| AByte (b : ascii)                    (* a literal byte *)
+| ASeg (cap : bool) (lazy : bool)      (* [^/]+ , ([^/]+) , ([^/]+?) *)
+| AAny.                                (* .*  (any characters except line feed) *)
+
+(* bytes that stand for themselves in a regular expression *)
+Definition is_plain (c : ascii) : bool :=
+  let n := nat_of_ascii c in
+  (Nat.leb 48 n && Nat.leb n 57) || (Nat.leb 65 n && Nat.leb n 90) ||
+  (Nat.leb 97 n && Nat.leb n 122) || Nat.eqb n 95 || Nat.eqb n 45 || Nat.eqb n 47 ||
+  Nat.eqb n 58 || Nat.eqb n 61 || Nat.eqb n 37 || Nat.eqb n 38 || Nat.eqb n 126 ||
+  Nat.leb 128 n.
+
+(* reads the body of a rewritten pattern (between ^ and $); None = not in the class *)
+Fixpoint parse_atoms (fuel : nat) (s : text) : option (list atom) :=
+  match fuel with
+  | 0 => None
+  | S f =>
+    match s with
+    | [] => Some []
+    | _ =>
+      match strip_prefix ns_plus_cap_lazy s with
+      | Some r => option_map (cons (ASeg true true)) (parse_atoms f r)
+      | None =>
+        match strip_prefix ns_plus_cap s with
+        | Some r => option_map (cons (ASeg true false)) (parse_atoms f r)
+        | None =>
+          match strip_prefix ns_plus s with
+          | Some r => option_map (cons (ASeg false false)) (parse_atoms f r)
+          | None =>
+            match s with
+            | c :: d :: r =>
+              if Ascii.eqb c "."%char && Ascii.eqb d star then option_map (cons AAny) (parse_atoms f r)
+              else if Ascii.eqb c "\"%char && Ascii.eqb d lbrace
+                   then option_map (cons (AByte lbrace)) (parse_atoms f r)
+              else if is_plain c then option_map (cons (AByte c)) (parse_atoms f (d :: r))
+              else None
+            | [c] => if is_plain c then Some [AByte c] else None
+            | [] => Some []
+            end
+          end
+        end
+      end
+    end
+  end.
+
+Definition parse_regex (t : text) : option (list atom) :=
+  match t with
+  | c :: r =>
+    if Ascii.eqb c "^"%char then
+      match rev r with
+      | d :: body_rev => if Ascii.eqb d "$"%char then parse_atoms (S (length r)) (rev body_rev) else None
+      | [] => None
+      end
+    else None
+  | [] => None
+  end.
+
+(* anchored match with leftmost-first captures: greedy groups try the longest
+   extent first, lazy ones the shortest; .* is greedy *)
+Fixpoint amatch (p : list atom) : text -> option (list text) :=
+  match p with
+  | [] => fun k => match k with [] => Some [] | _ => None end
+  | AByte b :: p' => fun k =>
+    match k with
+    | c :: k' => if Ascii.eqb b c then amatch p' k' else None
+    | [] => None
+    end
+  | ASeg cap lz :: p' =>
+    (* acc = the non-slash characters consumed so far (reversed), at least one *)
+    let fin := fun (acc : text) (rest : text) =>
+                 match amatch p' rest with
+                 | Some cs => Some (if cap then rev acc :: cs else cs)
+                 | None => None
+                 end in
+    (fix seg (acc : text) (k : text) : option (list text) :=
+       match k with
+       | c :: k' =>
+         if Ascii.eqb c slash then (match acc with [] => None | _ => fin acc k end)
+         else
+           let acc' := c :: acc in
+           if lz then
+             (* shortest first: stop here if the rest matches, else extend *)
+             match (match acc with [] => None | _ => fin acc k end) with
+             | Some r => Some r
+             | None => seg acc' k'
+             end
+           else
+             (* longest first *)
+             match seg acc' k' with
+             | Some r => Some r
+             | None => match acc with [] => None | _ => fin acc k end
+             end
+       | [] => match acc with [] => None | _ => fin acc [] end
+       end) []
+  | AAny :: p' =>
+    (fix any (k : text) : option (list text) :=
+       match k with
+       | c :: k' =>
+         if Ascii.eqb c lf then amatch p' k
+         else match any k' with
+              | Some r => Some r
+              | None => amatch p' k
+              end
+       | [] => amatch p' []
+       end)
+  end.
+
+Definition is_some {A} (o : option A) : bool := match o with Some _ => true | None => false end.
+
+(* function_map.rs key_match2 / key_match3 / key_match5; None = pattern outside
+   the modelled class *)
+Definition key_match2 (k1 k2 : text) : option bool :=
+  option_map (fun p => is_some (amatch p k1)) (parse_regex (rewrite_km2 k2)).
+Definition key_match3 (k1 k2 : text) : option bool :=
+  option_map (fun p => is_some (amatch p k1)) (parse_regex (rewrite_km3 k2)).
+Fixpoint cut_query (k : text) : text :=
+  match k with
+  | [] => []
+  | c :: r => if Ascii.eqb c qmark then [] else c :: cut_query r
+  end.
+Definition key_match5 (k1 k2 : text) : option bool :=
+  option_map (fun p => is_some (amatch p (cut_query k1))) (parse_regex (rewrite_km5 k2)).
+
+(* the i-th capture for the first name equal to v *)
+Fixpoint cap_for (v : text) (names : list text) (caps : list text) : text :=
+  match names, caps with
+  | n :: ns, c :: cs => if teqb v n then c else cap_for v ns cs
+  | _, _ => []
+  end.
+Definition key_get2 (k1 k2 v : text) : option text :=
+  let (t, ns) := rewrite_kg2 k2 in
+  option_map (fun p => match amatch p k1 with Some caps => cap_for v ns caps | None => [] end)
+             (parse_regex t).
+Definition key_get3 (k1 k2 v : text) : option text :=
+  let (t, ns) := rewrite_kg3 k2 in
+  option_map (fun p => match amatch p k1 with Some caps => cap_for v ns caps | None => [] end)
+             (parse_regex t).
+
+(* key_match4: repeated names must bind equal text *)
+Fixpoint consistent (names caps : list text) (seen : list (text * text)) : bool :=
+  match names, caps with
+  | n :: ns, c :: cs =>
+    match assoc n seen with
+    | Some c0 => teqb c0 c && consistent ns cs seen
+    | None => consistent ns cs ((n, c) :: seen)
+    end
+  | _, _ => true
+  end.
+Definition key_match4 (k1 k2 : text) : option bool :=
+  let (t, ns) := rewrite_km4 k2 in
+  option_map (fun p => match amatch p k1 with
+                       | Some caps => consistent ns caps []
+                       | None => false end)
+             (parse_regex t).
+
+(* ------------------------------------------------------------------ *)
+(* the documented meaning: patterns and keys as '/'-separated segments  *)
+Inductive seg := SLit (w : text) | SNamed (n : text) | SStar.
+
+Fixpoint intercalate (sep : text) (l : list text) : text :=
+  match l with
+  | [] => []
+  | [x] => x
+  | x :: l' => x ++ sep ++ intercalate sep l'
+  end.
+Definition render_seg2 (s : seg) : text :=
+  match s with SLit w => w | SNamed n => colon :: n | SStar => [star] end.
+Definition render_seg3 (s : seg) : text :=
+  match s with SLit w => w | SNamed n => lbrace :: n ++ [rbrace] | SStar => [star] end.
+(* a pattern is "/" ++ seg ++ "/" ++ seg ... *)
+Definition render2 (p : list seg) : text := flat_map (fun s => slash :: render_seg2 s) p.
+Definition render3 (p : list seg) : text := flat_map (fun s => slash :: render_seg3 s) p.
+
+(* literal words and names: non-empty, over [A-Za-z0-9_-] *)
+Definition is_safe_char (c : ascii) : bool :=
+  let n := nat_of_ascii c in
+  (Nat.leb 48 n && Nat.leb n 57) || (Nat.leb 65 n && Nat.leb n 90) ||
+  (Nat.leb 97 n && Nat.leb n 122) || Nat.eqb n 95 || Nat.eqb n 45.
+Definition safe_word (w : text) : bool :=
+  match w with [] => false | _ => forallb is_safe_char w end.
+(* the documented grammar: literal / named segments, '*' only as the last segment *)
+Fixpoint grammar (p : list seg) : bool :=
+  match p with
+  | [] => true
+  | [SStar] => true
+  | SStar :: _ => false
+  | SLit w :: p' => safe_word w && grammar p'
+  | SNamed n :: p' => safe_word n && grammar p'
+  end.
+
+(* split a key "/a/b/c" into its segments ["a";"b";"c"]; None if it does not
+   start with '/' (the empty key has no segments) *)
+Fixpoint split_slash (k : text) (cur : text) : list text :=
+  match k with
+  | [] => [rev cur]
+  | c :: r => if Ascii.eqb c slash then rev cur :: split_slash r [] else split_slash r (c :: cur)
+  end.
+Definition key_segments (k : text) : option (list text) :=
+  match k with
+  | c :: r => if Ascii.eqb c slash then Some (split_slash r []) else None
+  | [] => None
+  end.
+
+Definition no_lf (k : text) : bool := negb (memb Ascii.eqb lf k).
+
+(* the segment-wise specification, with the bindings of the named segments;
+   '*' as last segment takes any remainder after its slash (possibly empty,
+   possibly with further slashes), provided it has no line feed *)
+Fixpoint spec_match (p : list seg) (ks : list text) : option (list (text * text)) :=
+  match p, ks with
+  | [], [] => Some []
+  | [SStar], rest => match rest with
+                     | [] => None      (* the slash before the star must be there *)
+                     | _ => if forallb no_lf rest then Some [] else None
+                     end
+  | SLit w :: p', k :: ks' => if teqb w k then spec_match p' ks' else None
+  | SNamed n :: p', k :: ks' =>
+    match k with
+    | [] => None
+    | _ => match spec_match p' ks' with
+           | Some b => Some ((n, k) :: b)
+           | None => None
+           end
+    end
+  | _, _ => None
+  end.
+
+Definition spec_km (p : list seg) (k : text) : bool :=
+  match p with
+  | [] => teqb k []          (* the empty pattern matches only the empty key *)
+  | _ => match key_segments k with
+         | Some ks => is_some (spec_match p ks)
+         | None => false
+         end
+  end.
+Definition spec_get (p : list seg) (k : text) (v : text) : text :=
+  match key_segments k with
+  | Some ks => match spec_match p ks with
+               | Some b => match assoc v b with Some t => t | None => [] end
+               | None => []
+               end
+  | None => []
+  end.
+(* key_match4: equal names bind equal text *)
+Fixpoint bindings_consistent (b : list (text * text)) (seen : list (text * text)) : bool :=
+  match b with
+  | [] => true
+  | (n, t) :: b' =>
+    match assoc n seen with
+    | Some t0 => teqb t0 t && bindings_consistent b' seen
+    | None => bindings_consistent b' ((n, t) :: seen)
+    end
+  end.
+Definition spec_km4 (p : list seg) (k : text) : bool :=
+  match p with
+  | [] => teqb k []
+  | _ => match key_segments k with
+         | Some ks => match spec_match p ks with
+                      | Some b => bindings_consistent b []
+                      | None => false
+                      end
+         | None => false
+         end
+  end.
+Definition spec_km5 (p : list seg) (k : text) : bool := spec_km p (cut_query k).
+
+(* regex_match(key1, key2) for the documented use (alternatives of literal
+   words, optionally anchored): "^(GET|POST)$", "GET", "(GET)|(POST)".
+   Unanchored search. None = outside that class. *)
+Fixpoint is_infix (w s : text) : bool :=
+  match s with
+  | [] => match w with [] => true | _ => false end
+  | _ :: s' => is_prefix w s || is_infix w s'
+  end.
+Fixpoint split_bar (s : text) (cur : text) : list text :=
+  match s with
+  | [] => [rev cur]
+  | c :: r => if Ascii.eqb c "|"%char then rev cur :: split_bar r [] else split_bar r (c :: cur)
+  end.
+Definition strip_parens (w : text) : text :=
+  match w with
+  | c :: r => if Ascii.eqb c "("%char then
+                match rev r with
+                | d :: m => if Ascii.eqb d ")"%char then rev m else w
+                | [] => w
+                end
+              else w
+  | [] => w
+  end.
+Definition regex_match_words (k pat : text) : option bool :=
+  let (body, a_start) := match pat with
+                         | c :: r => if Ascii.eqb c "^"%char then (r, true) else (pat, false)
+                         | [] => (pat, false) end in
+  let (body, a_end) := match rev body with
+                       | d :: m => if Ascii.eqb d "$"%char then (rev m, true) else (body, false)
+                       | [] => (body, false) end in
+  let body := if a_start || a_end then strip_parens body else body in
+  let words := map strip_parens (split_bar body []) in
+  if forallb safe_word words then
+    Some (existsb (fun w =>
+                     match a_start, a_end with
+                     | true, true => teqb w k
+                     | true, false => is_prefix w k
+                     | false, true => is_prefix (rev w) (rev k)
+                     | false, false => is_infix w k
+                     end) words)
+  else None.
